@@ -351,6 +351,8 @@ def fillers(rng):
     pool = [
         ("U%d", "", "", "", None, []),
         ("One%d", "(Leaf)", "(Leaf(%d))", "(f0)", 0, [0]),
+        ("OneRef%d", "(&'static Leaf)", "(leak(Leaf(%d)))", "(f0)", 0, [0]),
+        ("NamRef%d", " { source: &'static Leaf }", " { source: leak(Leaf(%d)) }", " { source: f0 }", 0, [0]),
         ("Nam%d", " { source: Leaf, other: i32 }", " { source: Leaf(%d), other: 1 }", " { source: f0, other: _ }", 0, [0]),
         ("Pair%d", "(i32, i32)", "(%d, 2)", "(_, _)", None, []),
         ("NoSrc%d", " { other: Leaf }", " { other: Leaf(%d) }", " { other: f0 }", None, [0]),
@@ -405,7 +407,7 @@ def enum_case(cid, L, rng, generic, variant_ignored=False, rich=True):
             p = rng.randrange(1, 9000) * 10 + 9
             body.append("{ let v: %s = E::%s%s;" % (tyinst, bare, (mk % p) if mk else ""))
             if fids:
-                body.append("  if let E::%s%s = &v { obs(\"x%d.f0\", &lid(f0)); }" % (bare, pat, k))
+                body.append("  if let E::%s%s = &v { obs(\"x%d.f0\", &%s(f0)); }" % (bare, pat, k, "rlid" if "&'static" in decl else "lid"))
                 nev += 1
             body.append("  obs(\"x%d.src\", &source_id(StdError::source(&v))); }" % k)
             nev += 1
